@@ -13,7 +13,7 @@
 //                          etl::swap / ADL swap (generic 3-move swap), index(), holds_alternative<T>, get_if<I>/get_if<T>
 //                          (const and non-const), unchecked_get<I> (&, const&, &&, const&&), operator[](index_v<I>) (same 4),
 //                          visit(f) without variants, visit(f, v) (lvalue / const / rvalue / const rvalue), visit(f, v, w), visit(f, v, w, u), visit_with_index,
-//                          operator== != < <= > >= (!= through the C++20 rewrite of ==).
+//                          operator== != < <= > >= (!= through the C++20 rewrite of ==), also over variant<int,double> with NaN.
 //   do NOT exist / do not compile on this tree (not part of the check): variant::swap member, get<I>/get<T> (throwing
 //                          accessors), unchecked_get<T>, visit<R>, valueless_by_exception, variant_npos, hash<variant>,
 //                          source types for which etl finds no unique alternative (e.g. variant<int,char>(1L)) - a source type is
@@ -27,6 +27,7 @@
 #include "tracked.hpp"
 
 #include <array>
+#include <limits>
 #include <tuple>
 #include <utility>
 #include <variant>
@@ -680,6 +681,45 @@ struct Cfg {
     }
 };
 
+// ================================================================== relational operators over partially ordered values
+// variant<int,double> with states {int -1,0,1; double -1,0,1,2,NaN}: for equal indices every operator must forward to the
+// *same* operator of the alternatives ([variant.relops]: v <= w is get<i>(v) <= get<i>(w), not !(get<i>(w) < get<i>(v))).
+// Stateless: one op = the twelve comparisons of the operand states selected by a and b.
+struct FloatRel {
+    using EV = etl::variant<int, double>;
+    using MV = std::variant<int, double>;
+    static constexpr std::uint32_t NDOM = 8;
+    static auto name(std::uint32_t i) -> std::string
+    {
+        static char const* const nm[NDOM] = {"int -1", "int 0", "int 1", "double -1", "double 0", "double 1", "double 2", "double nan"};
+        return nm[i % NDOM];
+    }
+    template <typename V>
+    static auto make(std::uint32_t i) -> V
+    {
+        i %= NDOM;
+        if (i < 3) { return V(static_cast<int>(i) - 1); }
+        if (i < 7) { return V(static_cast<double>(i) - 4.0); }
+        return V(std::numeric_limits<double>::quiet_NaN());
+    }
+    static auto run(OpsCase const& k, int stats) -> std::string
+    {
+        for (auto const& op : k.ops) {
+            EV const x = make<EV>(op.a), y = make<EV>(op.b);
+            MV const a = make<MV>(op.a), b = make<MV>(op.b);
+            if (x.index() != a.index() || y.index() != b.index()) { return "l=" + name(op.a) + " r=" + name(op.b) + ": converting constructor chose another alternative than std::variant"; }
+            bool e[12] = {x == y, x != y, x < y, x <= y, x > y, x >= y, y == x, y != x, y < x, y <= x, y > x, y >= x};
+            bool m[12] = {a == b, a != b, a < b, a <= b, a > b, a >= b, b == a, b != a, b < a, b <= a, b > a, b >= a};
+            static char const* const nm[12] = {"l==r", "l!=r", "l<r", "l<=r", "l>r", "l>=r", "r==l", "r!=l", "r<l", "r<=l", "r>l", "r>=l"};
+            if (stats > 0 && ((op.a % NDOM) == 7 || (op.b % NDOM) == 7) && a.index() == b.index()) { vf::nontrivial_count(); }
+            for (int i = 0; i < 12; ++i) {
+                if (e[i] != m[i]) { return "l=" + name(op.a) + " r=" + name(op.b) + ": (" + nm[i] + ") is " + (e[i] ? "true" : "false") + ", std::variant says " + (m[i] ? "true" : "false"); }
+            }
+        }
+        return "";
+    }
+};
+
 // ------------------------------------------------------------------ configuration table
 struct Config {
     char const* name;
@@ -703,10 +743,16 @@ struct Config {
 #else
     #define C07_RUN2 nullptr
 #endif
+#if !defined(C07_ONLY) || C07_ONLY == 0
+    #define C07_RUN3 &FloatRel::run
+#else
+    #define C07_RUN3 nullptr
+#endif
 Config const configs[] = {
     {"variant<int,char>", C07_RUN0, 2},
     {"variant<int,NonTriv,Small>", C07_RUN1, 3},
     {"variant<NonTriv,int,char,Small>", C07_RUN2, 4},
+    {"variant<int,double> relational incl. NaN", C07_RUN3, 0}, // nalt 0 marks the stateless comparison configuration
 };
 constexpr std::uint32_t nconfigs = sizeof(configs) / sizeof(configs[0]);
 
@@ -723,7 +769,7 @@ auto describe(OpsCase const& k) -> std::string
     auto const& cfg = configs[k.cfg % nconfigs];
     std::string s   = std::string(cfg.name) + " :";
     for (auto const& o : k.ops) {
-        s += " " + std::string((o.c & 1U) != 0 ? "B." : "A.") + code_names[o.code % NCODES] + "[alt " + std::to_string(o.a % cfg.nalt) + ",b " + std::to_string(o.b) + ",v " + std::to_string((o.c >> 1) % NVAL) + "]";
+        s += " " + std::string((o.c & 1U) != 0 ? "B." : "A.") + code_names[o.code % NCODES] + "[alt " + std::to_string(cfg.nalt != 0 ? o.a % cfg.nalt : o.a) + ",b " + std::to_string(o.b) + ",v " + std::to_string((o.c >> 1) % NVAL) + "]";
     }
     return s;
 }
@@ -790,6 +836,22 @@ void vf_run(vf::Ctx& c)
         std::uint64_t n = 0;
         for (std::uint32_t ci = 0; ci < nconfigs; ++ci) {
             if (configs[ci].run == nullptr) { continue; }
+            if (configs[ci].nalt == 0) {
+                // stateless: every (lhs state, rhs state) of variant<int,double> incl. NaN
+                for (std::uint32_t a = 0; a < FloatRel::NDOM; ++a) {
+                    for (std::uint32_t b = 0; b < FloatRel::NDOM; ++b) {
+                        if (!c.mine(n++)) { continue; }
+                        OpsCase k;
+                        k.cfg = ci;
+                        k.ops.push_back(RawOp{Q_REL, a, b, 0});
+                        vf::Flight<OpsCase> fl("enum_float_relational", k);
+                        vf::eval("enum_float_relational");
+                        auto d = run_case(k, 1);
+                        if (!d.empty()) { vf::mismatch("enum_float_relational", k, d); }
+                    }
+                }
+                continue;
+            }
             auto nalt = configs[ci].nalt;
             std::vector<RawOp> ops, ops_small, queries;
             for (std::uint32_t code = 0; code < FIRST_QUERY; ++code) {
@@ -843,7 +905,7 @@ void vf_run(vf::Ctx& c)
     // E1: random histories of <= 25 ops, every configuration
     int per_cfg = (c.thorough() ? 50000 : 3000) / std::max(1, c.nshards) + 1; // per type over all shards: quick 3k, thorough 50k
     for (std::uint32_t ci = 0; ci < nconfigs; ++ci) {
-        if (configs[ci].run == nullptr) { continue; }
+        if (configs[ci].run == nullptr || configs[ci].nalt == 0) { continue; }
         auto gen = rc::gen::map(vf::gen_history(1, NCODES, 25), [ci](OpsCase k) {
             k.cfg = ci;
             return k;
